@@ -2,7 +2,7 @@
    [value]. The OCaml driver only parses and prints values; the same [run_case] is evaluated by
    vm_compute in the thorough tier. *)
 From Coq Require Import String Ascii List ZArith NArith Bool DecimalString.
-From Bkl Require Import Model.Value Model.Merge Model.Str Model.Eval Model.Tools Model.Parser.
+From Bkl Require Import Model.Value Model.Merge Model.Str Model.Eval Model.Tools Model.Parser Model.Wrapper.
 Import ListNotations.
 Local Open Scope string_scope.
 Local Open Scope list_scope.
@@ -174,6 +174,26 @@ Definition run_case (c : value) : value :=
         end
       else if String.eqb opn "encq" then
         match args with [t; obj; spec] => first_missing (oracles_of t) obj (flatten_spec spec) | _ => bad_case end
+      else if String.eqb opn "wrap" then
+        (* [table; args]: table maps an argument to ["file", fmt] or ["fail"]; answer: the plan *)
+        match args with
+        | [VMap table; VList al] =>
+            let resolve (a : string) : option (res string) :=
+              match lookup a table with
+              | Some (VList (VStr k :: _)) => if String.eqb k "file" then Some (Ok a) else Some (Err EOther)
+              | _ => None
+              end in
+            match wrap resolve "rec" (map str_of al) with
+            | Fail => VList [VStr "fail"]
+            | Exec _ out =>
+                VList [VStr "exec";
+                       VList (map (fun a => match lookup a table with
+                                            | Some (VList [VStr _; VStr f]) => VList [VStr "file"; VStr f]
+                                            | _ => VList [VStr "same"; VStr a]
+                                            end) out)]
+            end
+        | _ => bad_case
+        end
       else if String.eqb opn "show" then
         match args with [v] => VStr (show v) | _ => bad_case end
       else if String.eqb opn "b64" then
